@@ -203,23 +203,29 @@ def install(eng):
 
 
 class ReadLoop(S.LoopContract):
-    """after j rows: `values` holds, in row order, the numbers of the non-blank rows among the first j; each of those rows had a numeric cell"""
+    """after j rows: the accumulated list holds, in row order, the numbers of the non-blank rows among the first j; each of those rows
+    had a numeric cell. The loop variables and the accumulator are bound by role from the loop's AST."""
+
+    def __init__(self, loop_vars=("i", "row"), acc="values"):
+        self.loop_vars, self.acc = tuple(loop_vars), acc
 
     def inv(self, I):
         from .dyn import FLOATLIT
 
         eng, st, j = I.eng, I.st, I.j
         idx = IDX
-        for n in ("i", "row"):
+        for n in self.loop_vars:
             I.covered.add(n)
             if I.mode == "abstract" and n in st.env:
                 st.env.pop(n)
-        I.covered.add("values")
+        I.covered.add(self.acc)
+        if self.acc not in st.env or not isinstance(st.env[self.acc], Ref) or not isinstance(st.get(st.env[self.acc]), PyList):
+            raise Unsupported("the row loop does not accumulate into a list named %s" % self.acc)
         if I.mode == "abstract":
-            st.env["values"] = st.alloc(PyList(seq=SeqV(CNT(j), lambda m: Sym("dyn", Val.F(floatcell(SRC(m), idx))), tag="values")))
+            st.env[self.acc] = st.alloc(PyList(seq=SeqV(CNT(j), lambda m: Sym("dyn", Val.F(floatcell(SRC(m), idx))), tag="values")))
             st.assume_all_k(lambda k: z3.Implies(z3.And(k >= 0, k < j, nonblank(k)), z3.And(FLOATLIT(CELL(k, idx)), idx < ROWLEN(k))))
             return
-        o = st.get(st.env["values"])
+        o = st.get(st.env[self.acc])
         seq = eng.list_seq(o)
         I.fact("one value per non-blank row so far", seq.n == CNT(j))
 
@@ -272,7 +278,14 @@ def verify_csv_read(repo):
     ci = repo.modules[CSVIO].classes["EEMSRead"]
     fi = repo.find_method(ci, "execute")
     loops = [n for n in ast.walk(fi.node) if isinstance(n, ast.For)]
-    eng.loop_contracts[(fi.key, "for", 0)] = ReadLoop()
+    if not loops:
+        raise Unsupported("EEMSRead.execute has no row loop")
+    lp = loops[0]
+    names = [e.id for e in lp.target.elts] if isinstance(lp.target, ast.Tuple) and all(isinstance(e, ast.Name) for e in lp.target.elts) else []
+    accs = [c.func.value.id for c in ast.walk(lp) if isinstance(c, ast.Call) and isinstance(c.func, ast.Attribute) and c.func.attr == "append" and isinstance(c.func.value, ast.Name)]
+    if len(names) != 2 or len(set(accs)) != 1:
+        raise Unsupported("row loop is not `for <i>, <row> in ...: ... <list>.append(...)`")
+    eng.loop_contracts[(fi.key, "for", 0)] = ReadLoop(names, accs[0])
     spec = CsvReadSpec()
 
     # the column index is whatever `headers.index` returned: remember it when the loop contract first needs it
